@@ -64,6 +64,17 @@ var specialStrings = []string{"", "plain", "with \"quotes\" and \\backslash", "c
 	// text that LOOKS like the escapes a JSON encoder emits (a regular expression, a Windows path): it is data
 	`^\u003cdiv\u003e \u0026 \n \"`, `C:\users\u2028`}
 
+// tableToucher is a payload whose marshaler calls back into the event it belongs to.
+type tableToucher struct {
+	Inner interface{}
+	touch func()
+}
+
+func (p *tableToucher) MarshalJSON() ([]byte, error) {
+	p.touch()
+	return json.Marshal(p.Inner)
+}
+
 type rawHolder struct {
 	Raw json.RawMessage
 }
@@ -350,6 +361,17 @@ func runJSONFormatters(rc *RunCtx) {
 				// the formatter is the last writer and must replace it
 				e.Formatted[el.JSONFormat] = []byte("stale, not even JSON")
 				simrt.Probe("json.slot-preoccupied")
+			}
+			if encodable && tp.Choose(8, "marshaler-touches-format-table") == 0 {
+				// the payload's own marshaler looks at (and adds to) the event's format table while the formatter
+				// is encoding it -- any holder of the event may, at any time
+				ev := e
+				e.Payload = &tableToucher{Inner: payload, touch: func() {
+					ev.Format(el.JSONFormat)
+					ev.FormattedAs("seen-by-marshaler", []byte("x"))
+					simrt.Probe("json.marshaler-touched-format-table")
+				}}
+				payloadCopy = &tableToucher{Inner: payloadCopy, touch: func() {}}
 			}
 			staleBefore, hadStale := e.Formatted[el.JSONFormat]
 			which := tp.Choose(3, "node")
@@ -735,6 +757,21 @@ type ceWithBoth struct {
 func (p *ceWithBoth) ID() string        { return p.id }
 func (p *ceWithBoth) Data() interface{} { return p.data }
 
+// ceTicketID hands out a fresh id per call; every second one of them has nothing left after the first.
+type ceTicketID struct {
+	cePlain
+	n     int
+	calls int
+}
+
+func (p *ceTicketID) ID() string {
+	p.calls++
+	if p.calls > 1 && p.n%2 == 0 {
+		return ""
+	}
+	return fmt.Sprintf("ticket-%d-%d", p.n, p.calls)
+}
+
 // ceOneShot renders itself once per Process call; the harness re-arms it before each call.
 type ceOneShot struct {
 	N     int
@@ -894,10 +931,16 @@ func runCloudEvents(rc *RunCtx) {
 			var payload interface{}
 			var wantData interface{}
 			wantID := ""
-			kind := tp.Choose(8, "payload")
+			kind := tp.Choose(9, "payload")
 			dataMustBeAbsent := false
 			var oneShot *ceOneShot
 			switch kind {
+			case 8:
+				// an ID() that is not idempotent (a ticket taken from a queue, a sequence): the id of the
+				// document is the value ID() returned for it -- one call, checked and used
+				tk := &ceTicketID{cePlain: base, n: i}
+				payload, wantData = tk, nil
+				wantID = fmt.Sprintf("ticket-%d-1", i)
 			case 7:
 				// data that can be rendered once per Process call (backed by a stream): a second rendering fails
 				oneShot = &ceOneShot{N: i}
@@ -922,7 +965,7 @@ func runCloudEvents(rc *RunCtx) {
 			default:
 				payload, wantData = map[string]interface{}{"k": "v", "n": i}, map[string]interface{}{"k": "v", "n": i}
 			}
-			if kind == 1 {
+			if kind == 1 || kind == 8 {
 				wantData = payload
 			}
 			if (hasSigner || lateSigner) && tp.Choose(4, "rotate") == 0 {
